@@ -62,6 +62,16 @@ def translate_body(body, suffix):
     for c, _ in toks:
         if c not in bools:
             raise OutOfGrammar("unknown condition " + c)
+    # every statement of the body must be one of the accepted forms: strip comments and the accepted statements, nothing may remain
+    rest = re.sub(r"//[^\n]*", "", body)
+    rest = re.sub(r"/\*.*?\*/", "", rest, flags=re.S)
+    rest = re.sub(r"auto\s+max_time\s*=\s*params\.max_time\s*;", "", rest)
+    rest = re.sub(r"if\s*\(opts\.max_time\)\s*max_time\s*=\s*std::min\(max_time,\s*\*opts\.max_time\)\s*;", "", rest)
+    rest = rest.replace(m.group(0), "")
+    rest = re.sub(r"bool\s+\w+\s*=\s*[^;]+;", "", rest)
+    rest = re.sub(r"return\s+.*?;", "", rest, count=1, flags=re.S)
+    if rest.strip():
+        raise OutOfGrammar("statement outside the grammar: " + norm(rest)[:120])
     out = []
     out.append("Definition default_tolerance_%s {T} `{Num T} : T := ndiv n1 (nofZ (10 ^ %d)%%Z)." % (suffix, k))
     out.append("Definition stop_status_%s {T} `{Num T} (opts_tol eps : T) (time_exceeded : bool)" % suffix)
